@@ -52,6 +52,17 @@ def lit(x):
     return x
 
 
+def own(x, *operands):
+    """A result about to be updated in place by its holder.  If the library handed back one of the operands
+    *itself* (an identity shortcut such as to_Vector2D() of a 2D vector), updating it would be the caller's own
+    doing, so a copy is taken; a *different* object that merely shares the operand's storage is kept as it is -
+    updating that one must not reach the operand."""
+    for o in operands:
+        if x is o:
+            return copy.deepcopy(x)
+    return x
+
+
 def pickle_rt(x):
     return pickle.loads(pickle.dumps(x, protocol=pickle.HIGHEST_PROTOCOL))
 
